@@ -50,7 +50,7 @@ pub fn make_delta(id: u64, ts: u64, pad: usize) -> ReplicationDelta {
     let r = ReplicaId::new(1 + (id % 3));
     let clock = LamportClock { time: ts, replica_id: r };
     let mut v = format!("v{}-", id);
-    while v.len() < pad { v.push('x'); }
+    if v.len() < pad { let n = pad - v.len(); v.extend(std::iter::repeat('x').take(n)); }
     ReplicationDelta::new(format!("w{}", id), ReplicatedValue::with_value(SDS::from_str(&v), clock), r)
 }
 
@@ -139,8 +139,10 @@ impl Property for C09 {
         // ---- swarm configuration
         let pad = *src.pick(&[0usize, 0, 40, 300]);
         // now and then every entry is larger than 1 MiB (a size cap in one of writer/reader only)
-        let pad = if src.chance(1, 300) { 1_100_000 } else { pad };
+        // (and one time in eight of those larger than 16 MiB: a string value may be up to 512 MB, so no "plausible" bound is one)
+        let pad = if src.chance(1, 300) { if src.chance(1, 8) { 17_000_000 + 9_000_000 * src.below(3) as usize } else { 1_100_000 } } else { pad };
         if pad > 1_000_000 { rep.probe("entries_over_1mib"); }
+        if pad > 16_000_000 { rep.probe("entries_over_16mib"); }
         let entry_size = {
             let e = redis_sim::streaming::WalEntry::from_delta(&make_delta(10, 10, pad), 10).unwrap();
             e.disk_size()
@@ -167,6 +169,13 @@ impl Property for C09 {
             if v.is_empty() { v.push((next_id, 1)); next_id += 1; }
             plans.push(v);
         }
+        if pad > 16_000_000 {
+            // keep such a run small: at most two writers with one write each
+            plans.truncate(2);
+            next_id = 0;
+            for p in plans.iter_mut() { p.truncate(1); p[0].0 = next_id; next_id += 1; }
+        }
+        let nwriters = plans.len();
         let total_writes = next_id;
         // mode B: the production glue (ReplicatedShardedState::execute with a WAL handle) issues the
         // durable writes; a reply to the client stands for "write_durable returned". Fault-free only.
